@@ -142,3 +142,45 @@ func vh_C05_compile() {
 	vAssert(!p3 && err3 == nil && vrMatch(r3, vrVal{k: vrInt, i: 3}), "compile-usable-afterwards")
 	vReach("compile")
 }
+
+// parse-time failures: a text that fails to parse (unfinished form, bad
+// token, stray bracket) is reported as an error, and the next evaluation
+// behaves as in an interpreter that never saw the failing text.
+var vC05BadTexts = []string{
+	`(def b (+ a 1`, `(def b [1 2`, `(def b "abc`, `{a = `, `(def b 1))`, `(def b 'ab')`, `(def b "a\qz")`, "(def b `raw", `/* open comment`, `(def b ]`,
+}
+
+func vh_C05_parse() {
+	vFormatOpaque(true)
+	env := vEvalEnv(0)
+	twin := vEvalEnvs[1]
+	h := vSmallInt("h")
+	for _, e := range []*Zlisp{env, twin} {
+		if _, err, p := vEval(e, vL(vS(e, "def"), vS(e, "a"), h)); err != nil || p {
+			vAssert(false, "parse-setup")
+			return
+		}
+	}
+	bad := vC05BadTexts[vChoice("bad", len(vC05BadTexts))]
+	_, err, p := vEvalString(env, bad)
+	vAssert(!p, "parse-failure-no-panic")
+	if p {
+		return
+	}
+	vAssert(err != nil, "parse-failure-is-reported")
+	vC04AtRest(env, "after-parse-failure")
+	// follow-ups, compared with the twin that never saw the bad text
+	for _, txt := range []string{`(def d 10) (+ d a)`, `b`, `(+ a 1)`, ``} {
+		r1, e1, p1 := vEvalString(env, txt)
+		r2, e2, p2 := vEvalString(twin, txt)
+		vAssert(!p1 && !p2, "followup-no-panic")
+		if p1 || p2 {
+			return
+		}
+		vAssert((e1 == nil) == (e2 == nil), "followup-same-errorness-as-twin")
+		if e1 == nil && e2 == nil {
+			vAssert(vSexpEq(r1, r2), "followup-same-value-as-twin")
+		}
+	}
+	vReach("parse")
+}
